@@ -1,11 +1,56 @@
-//! C09 — not built yet.
+//! C09 — the bytes any builder writes are a well-formed version-3 file; the model side decodes
+//! them with the format specification alone (coq/Format.v), not with the crate's reader.
 use crate::common::*;
+use crate::core::*;
+
 pub struct P;
+
 impl Prop for P {
-    fn generate(&self, _tier: Tier, _rng: &mut Rng, _stats: &mut Stats) -> Vec<String> {
-        vec![]
+    fn generate(&self, tier: Tier, rng: &mut Rng, stats: &mut Stats) -> Vec<String> {
+        let mut cases = vec![];
+        let nrand = match tier { Tier::Quick => 250, Tier::Thorough => 4000, Tier::Wide => 1000 };
+        let sets = crate::c02::standard_keysets(tier, rng, stats, nrand);
+        let geoms = crate::c01::GEOMETRIES;
+        for ks in sets {
+            let g = if rng.chance(2, 3) { geoms[0] } else { *rng.pick(&geoms) };
+            cases.push(format!("fmt 0 {} {} {}", g.0, g.1, fmt_ops(&set_ops(&ks))));
+            let p = 1 + rng.below(NPATTERNS as u64 - 1) as usize;
+            let vals = value_pattern(p, ks.len(), rng);
+            let ty = if rng.chance(1, 4) { rng.next() } else { 0 };
+            cases.push(format!("fmt {} {} {} {}", ty, g.0, g.1, fmt_ops(&map_ops(&with_values(&ks, &vals)))));
+        }
+        // address deltas of 2 bytes (files > 256 bytes between a node and its target) and 3 bytes (thorough)
+        let sizes: &[usize] = if tier == Tier::Thorough { &[40, 400, 9000] } else { &[40, 400] };
+        for &n in sizes {
+            // many distinct long tails so that early nodes are far away from the root
+            let ks: Vec<Vec<u8>> = sort_dedup((0..n).map(|i| format!("{:05}{}", i, "x".repeat(8 + i % 5)).into_bytes()).collect());
+            cases.push(format!("fmt 0 10000 2 {}", fmt_ops(&set_ops(&ks))));
+            let vals: Vec<u64> = (0..ks.len() as u64).map(|i| i * 7919 % 65_000).collect();
+            cases.push(format!("fmt 0 10000 2 {}", fmt_ops(&map_ops(&with_values(&ks, &vals)))));
+            stats.bump(&format!("wide_delta_family_{}_keys", n));
+        }
+        cases
     }
-    fn execute(&self, _case: &str) -> String {
-        String::new()
+    fn nontrivial(&self, case: &str) -> bool {
+        case.matches(',').count() >= 1
+    }
+    fn execute(&self, case: &str) -> String {
+        let p: Vec<&str> = case.split(' ').collect();
+        let ty: u64 = p[1].parse().unwrap();
+        let rows: usize = p[2].parse().unwrap();
+        let cols: usize = p[3].parse().unwrap();
+        let ops = parse_ops(p[4]);
+        let out = exec_build("extend", "raw_loop", ty, rows, cols, &ops);
+        let bytes = out.bytes.unwrap();
+        // what was inserted (a repeated add is one key)
+        let mut kvs: Vec<(Vec<u8>, u64)> = vec![];
+        for o in &ops {
+            if kvs.last().map(|l| l.0 == o.key()).unwrap_or(false) {
+                continue;
+            }
+            kvs.push((o.key().to_vec(), o.val()));
+        }
+        let info = crate::c12::node_info(&fst::raw::Fst::new(bytes.clone()).unwrap());
+        format!("S:v=3;ty={};c={};len={};nodes={}\tM:bytes={}\tX:ok", ty, fmt_kvs(&kvs), kvs.len(), info.emitted, hex(&bytes))
     }
 }
